@@ -69,3 +69,7 @@ package resolve
 //@   pure
 //@ func resolver.isUniversal
 //@   pure
+
+// ---- determinism and thread-compatibility (C03, C05): no function of the package writes a
+// package-level variable at run time (what one execution left there another would read)
+//@ globals_readonly [C03,C05] none
